@@ -85,7 +85,13 @@ func main() {
 			s = strings.Replace(s, marker, marker+add, 1)
 		}
 		ins("func DeleteLexerState(l *SyslLexer) {\n", "\tverifrt.Yield(\"lexdel\", \"\")\n")
-		ins("\tstate := &lexerState{}\n", "\tverifrt.Yield(\"lexnew\", \"\")\n")
+		// lexer-state creation: after the allocation line, or (if that line was rewritten) after the
+		// registration in the shared registry
+		if strings.Count(s, "\tstate := &lexerState{}\n") == 1 {
+			ins("\tstate := &lexerState{}\n", "\tverifrt.Yield(\"lexnew\", \"\")\n")
+		} else {
+			ins("\tlexerStates.Store(key, state)\n", "\tverifrt.Yield(\"lexnew\", \"\")\n")
+		}
 		ins("func getNextToken(l *SyslLexer) antlr.Token {\n", "\tverifrt.Yield(\"tok\", \"\")\n")
 		ins("import (\n", "\t\"github.com/anz-bank/sysl/pkg/verifrt\"\n")
 		if strings.Contains(s, "hashmap.HashMap") {
